@@ -326,3 +326,43 @@ pub fn long_inputs(k: u32, p: u64, max_len: usize, seed: u64) -> Vec<Dec> {
     let _ = BigInt::zero();
     out
 }
+
+/// Precisions p <= pmax at which the rounding of the k-th root of |x| is DELICATE: the `run` digits after the p-th
+/// digit of the true root are 0..0, 9..9, 50..0 or 49..9 (computed by the model from the certified integer root), so
+/// that the result hinges on the sticky / exactness information and on nothing else.
+pub fn delicate_precisions(k: u32, x: &Dec, pmax: u64, run: usize) -> Vec<u64> {
+    if x.n.is_zero() {
+        return vec![];
+    }
+    let digits = root_rounded(&x.n.abs(), x.s, k, pmax + run as u64 + 2, Mode::Down).n.to_string();
+    let d = digits.as_bytes();
+    let mut out = vec![];
+    for p in 1..=pmax as usize {
+        let g = &d[p..p + run];
+        let rest_all = |c: u8| g[1..].iter().all(|&b| b == c);
+        if (g[0] == b'0' && rest_all(b'0')) || (g[0] == b'9' && rest_all(b'9')) || (g[0] == b'5' && rest_all(b'0')) || (g[0] == b'4' && rest_all(b'9')) {
+            out.push(p as u64);
+        }
+    }
+    out
+}
+
+/// every mode (and every entry point) at each delicate precision of the radicand; `t.states` counts radicands whose
+/// root the model scanned, transitions the calls made into the subject
+pub fn delicate_sweep(run: &Run, k: u32, x: &Dec, pmax: u64, t: &mut Tally) {
+    t.states += 1;
+    let ps = delicate_precisions(k, x, pmax, 4);
+    if ps.is_empty() {
+        return;
+    }
+    let mut t2 = Tally::default();
+    sweep(run, k, x, &ps, true, &mut t2);
+    t.transitions += t2.transitions;
+    t.nontrivial += t2.nontrivial;
+    if k == 3 {
+        let mut t3 = Tally::default();
+        sweep(run, k, &x.neg(), &ps, true, &mut t3);
+        t.transitions += t3.transitions;
+        t.nontrivial += t3.nontrivial;
+    }
+}
